@@ -14,7 +14,66 @@ COQ_PRIM = {"bool": "PBool", "int8": "PInt8", "uint8": "PUint8", "int16": "PInt1
 ORDER = list(COQ_PRIM)
 
 
+def go_func_body(text, name):
+    i = text.index("func %s(" % name)
+    j = text.index("{", text.index(")", i))
+    depth, k = 0, j
+    while True:
+        if text[k] == "{":
+            depth += 1
+        elif text[k] == "}":
+            depth -= 1
+            if depth == 0:
+                return text[j + 1:k]
+        k += 1
+
+
+def gen_phases():
+    """T-table: the ordered calls of generateImpl (generatecommand.go) and whether their error is checked at once."""
+    src = open(os.path.join(REPO, "tooling/internal/cmd/generatecommand.go")).read()
+    body = go_func_body(src, "generateImpl")
+    lines = [ln.strip() for ln in body.split("\n")]
+    phases = []
+    for i, ln in enumerate(lines):
+        m = re.search(r"(?:(?:[\w, ]+?)\s*:?=\s*|if err :?= )((?:\w+\.)?\w+)\(", ln)
+        if not m or ln.startswith("return") or ln.startswith("//"):
+            continue
+        fn = m.group(1)
+        inline_check = ln.startswith("if err :=") and "err != nil" in ln
+        nxt = next((x for x in lines[i + 1:] if x), "")
+        nxt2 = [x for x in lines[i + 1:] if x][1:2]
+        checked = inline_check or (nxt.startswith("if err != nil") and bool(nxt2) and nxt2[0].startswith("return"))
+        if inline_check:
+            after = [x for x in lines[i + 1:] if x][:1]
+            checked = bool(after) and after[0].startswith("return")
+        base = fn.split(".")[-1]
+        if base == "LoadPackage":
+            kind = "KLoad"
+        elif base == "updatePackageInfoFromArgs":
+            kind = "KConfig"
+        elif base.lower().startswith("validate"):
+            kind = "KValidate"
+        elif base == "Generate" or base.lower().startswith("output") or fn.startswith("iocommon.") or fn in (
+                "os.WriteFile", "os.Create", "os.MkdirAll", "os.Remove", "os.RemoveAll", "os.Symlink", "os.Rename"):
+            kind = "KWrite"
+        else:
+            kind = "KOther"
+        phases.append((fn, kind, checked))
+    L = ["(* GENERATED on every run from tooling/internal/cmd/generatecommand.go:generateImpl by harness/lib/gentables.py. Do not edit. *)",
+         "From Coq Require Import List.", "From YV Require Import Model.GenPhases.", "Import ListNotations.", "",
+         "(* " + "; ".join("%s=%s%s" % (f, k, "" if c else " (error NOT checked)") for f, k, c in phases) + " *)",
+         "Definition generate_phases : list phase :=", "  [" + "; ".join("(%s, %s)" % (k, "true" if c else "false") for f, k, c in phases) + "].", ""]
+    text = "\n".join(L)
+    path = os.path.join(COQ, "Gen", "GenerateImpl.v")
+    old = open(path).read() if os.path.exists(path) else None
+    if old != text:
+        with open(path, "w") as f:
+            f.write(text)
+    return phases
+
+
 def regenerate(ctx):
+    gen_phases()
     t = json.loads(ctx.hook_call(["tables"]))
     L = ["(* GENERATED on every run from /repo by harness/lib/gentables.py (hook `yardl-verif tables`). Do not edit. *)",
          "From Coq Require Import NArith.", "From YV Require Import Model.Binary.", "Open Scope N_scope.", "",
